@@ -133,6 +133,26 @@ pub fn read_stream(bs: &[u8]) -> String {
     out.join(" ")
 }
 
+/// The other iterators over the same reader, which the CLI and library users reach for: `entries_skip_solid()` and
+/// `entries_with_password()`: (names returned before the end or the first error, ended without an error?)
+pub fn read_other_iterators(bs: &[u8], password: Option<&str>) -> Vec<(&'static str, Vec<String>, bool)> {
+    let mut v = vec![];
+    for which in ["entries_skip_solid", "entries_with_password"] {
+        let mut names = vec![];
+        let end = (|| -> Result<(), io::Error> {
+            let mut a = Archive::read_header(bs)?;
+            let it: Box<dyn Iterator<Item = io::Result<NormalEntry>> + '_> = if which == "entries_skip_solid" { Box::new(a.entries_skip_solid()) } else { Box::new(a.entries_with_password(password)) };
+            for e in it {
+                names.push(e?.header().path().as_str().to_string());
+                if names.len() > bs.len() / 12 + 2 { return Err(io::Error::other(HANG)); }
+            }
+            Ok(())
+        })();
+        v.push((which, names, end.is_ok()));
+    }
+    v
+}
+
 pub fn read_slice(bs: &[u8]) -> String {
     let mut out = vec![];
     let mut next = false;
